@@ -32,7 +32,7 @@ enum Color { RED, GREEN };
 struct Pt { int x; double y; };
 class Top { public: enum Inner { A, B }; Top(); };
 class Dev { public: Dev(); };
-namespace ns { class Cls { public: Cls(); ~Cls(); int get() const; }; typedef long NsLong; namespace deep { class Leaf {}; } }
+namespace ns { class Cls { public: Cls(); ~Cls(); int get() const; }; typedef long NsLong; namespace deep { class Leaf {}; } class Leaf { public: int other; }; }
 template<class T> struct pdepth { static const int value = 0; };
 template<class T> struct pdepth<T*> { static const int value = 1 + pdepth<typename std::remove_cv<T>::type>::value; };
 template<class T> struct pbase { typedef T type; };
@@ -50,7 +50,7 @@ template<class T> struct shape {
 '''
 
 TYPES = ["int", "long", "double", "char", "bool", "unsigned int", "long long", "unsigned", "short int", "float", "size_t", "std::string",
-         "std::vector<int>", "std::vector<double>", "MyInt", "Color", "Pt", "Top", "ns::Cls", "ns::deep::Leaf", "int64_t", "Dev",
+         "std::vector<int>", "std::vector<double>", "MyInt", "Color", "Pt", "Top", "ns::Cls", "ns::deep::Leaf", "ns::Leaf", "int64_t", "Dev",
          "unsigned long long int", "long int", "unsigned short int", "unsigned long", "short", "uint8_t", "ns::NsLong", "Top::Inner"]
 NATIVE = {"signed char", "char signed", "signed int", "int signed", "signed long", "long signed", "signed", "unsigned char", "char unsigned", "void", "int", "long", "double", "char", "unsigned int", "long long", "unsigned", "short int", "float", "unsigned long long int", "long int",
           "unsigned short int", "unsigned long", "short"}
